@@ -117,14 +117,20 @@ class IOMixin(OptimizationProblem, metaclass=ABCMeta):
                             "imported timeseries.".format(variable)
                         )
 
-                # Determine position of first times of added timeseries within the
-                # import times. For this we assume that both time ranges are ordered,
-                # and that the times of the added series is a subset of the import
-                # times.
-                t_pos = bisect.bisect_left(timeseries_times_sec, timeseries.times[0])
+                if set(timeseries_times_sec).issuperset(timeseries.times):
+                    # Store every value at the position of its own time stamp (the added
+                    # series need not be a contiguous part of the import times).
+                    values = np.full(timeseries_times_sec.shape, np.nan)
+                    values[np.searchsorted(timeseries_times_sec, timeseries.times)] = (
+                        timeseries.values
+                    )
+                else:
+                    # Determine position of first times of added timeseries within the
+                    # import times. For this we assume that both time ranges are ordered.
+                    t_pos = bisect.bisect_left(timeseries_times_sec, timeseries.times[0])
 
-                # Construct a new values range with length of self.io.get_times()
-                values = stretch_values(timeseries.values, t_pos)
+                    # Construct a new values range with length of self.io.get_times()
+                    values = stretch_values(timeseries.values, t_pos)
             else:
                 values = timeseries.values
 
